@@ -488,6 +488,22 @@ let run_tty u line =
           (if r.rr_obs = [] then "_" else String.concat ";" (List.map fmt_obs r.rr_obs))
           (fmt_str (List.concat r.rr_out))) rs)
 
+(* ---------- stream: rawsteps (C16) ---------- *)
+(* case: `<paste 0|1> <suspend episodes> <ok|fail>`: one read ending in a line; answer: the paste switches the terminal saw
+   (h = on, l = off) and whether the settings are those found *)
+let run_rawsteps _u line =
+  match words line with
+  | [paste; s; w] ->
+    let n = int_of_string s in
+    let rec acts k = if k = 0 then [AWrite] else AWrite :: ASuspend (fun x -> x) :: acts (k - 1) in
+    let oracle = if w = "ok" then [] else List.init 64 (fun _ -> false) in
+    let t0 = { t_tio = nat_of_int 7; t_out = [] } in
+    let ((t1, _), _) = read_steps (fun x -> S (S x)) (paste = "1") (acts n) XLine t0 oracle in
+    Printf.sprintf "%s %s"
+      (match switches t1.t_out with [] -> "-" | l -> String.concat "" (List.map (fun b -> if b then "h" else "l") l))
+      (if int_of_nat t1.t_tio = 7 then "restored" else "CHANGED")
+  | _ -> failwith "bad rawsteps case"
+
 (* ---------- main ---------- *)
 let () =
   let stream = Sys.argv.(1) in
@@ -504,6 +520,7 @@ let () =
     | "compl" -> run_compl u
     | "linebuf" -> run_linebuf u
     | "tty" -> run_tty u
+    | "rawsteps" -> run_rawsteps u
     | s -> failwith ("unknown stream " ^ s) in
   (try
      while true do
